@@ -255,7 +255,8 @@ CHECKS = {
              "(barycentric interpolation on a given triangulation: [min,max] inside, 0 outside, stored height at a vertex), "
              "C19_sparse_point / _affine / _vertex_b / _vertex_c (the weights are the barycentric coordinates of the query point, so the "
              "value is the height there of the plane through the triangle's stored vertices; plane-shaped data is reproduced exactly; "
-             "all three vertices return their stored height), "
+             "all three vertices return their stored height), C19_sparse_unique (barycentric coordinates are unique, so the value is independent "
+             "of vertex order), C19_sparse_scaled_range ([scale*min, scale*max] or 0 for every positive scale), "
              "C19_raster_path / C19_sparse_path (sample_path as a whole: ends, in-order selection, own height everywhere). Tie: "
              "draw_line == skimage.draw.line and py_round == round exactly, raster_depth / sparse_depth (scipy's simplices) / linspace "
              "within 1e-9, filter_points == sample_path output exactly; oracle on real maps for every clause of the statement, plus plane-shaped point sets that must be reproduced inside the hull by any triangulation.",
